@@ -937,6 +937,38 @@ func runZeroOff(c *Ctx) {
 				for _, v := range mentions(info, e) {
 					out = append(out, v.Name())
 				}
+				// a local computed from a limit field (`max := limits.F; if max <= 0 { max = 64 << 10 }`) still is that limit:
+				// substituting a default for 0 does not make 0 mean 'no limit' (F37)
+				ast.Inspect(e, func(n ast.Node) bool {
+					id, ok := n.(*ast.Ident)
+					if !ok {
+						return true
+					}
+					o, _ := info.Uses[id].(*types.Var)
+					if o == nil || o.IsField() {
+						return true
+					}
+					for g := f; g != nil; g = g.Parent {
+						for _, d := range allDefs(g, o) {
+							// copies and arithmetic only: a value returned by a call that took the limit as an argument
+							// (CreateWithLimit, newTokenBucket) is that callee's business
+							ast.Inspect(d, func(m ast.Node) bool {
+								if call, ok := m.(*ast.CallExpr); ok {
+									if tv, ok := g.Info().Types[call.Fun]; !ok || !tv.IsType() {
+										return false
+									}
+								}
+								if x, ok := m.(ast.Expr); ok {
+									if v := limitFieldOf(g.Info(), x); v != nil {
+										out = append(out, v.Name())
+									}
+								}
+								return true
+							})
+						}
+					}
+					return true
+				})
 				return out
 			}) {
 				n[fld]++
